@@ -180,6 +180,13 @@ def t_add_neutral(net, g):
     if a != c and net.bus.vn_kv.at[a] == net.bus.vn_kv.at[c]:
         pp.create_line_from_parameters(net, a, c, 1., 0.1, 0.1, 10, 1., in_service=False)
     pp.create_gen(net, g.C(b), 5., 1.07, in_service=False)
+    # further elements that are out of service: dc line (two auxiliary generators inside pandapower), ward, xward, ext_grid
+    a, c = g.C(b), g.C(b)
+    if a != c:
+        pp.create_dcline(net, a, c, p_mw=g.R(1, 4), loss_percent=1., loss_mw=0.01, vm_from_pu=1.06, vm_to_pu=0.97, in_service=False)
+    pp.create_ward(net, g.C(b), 1., 0.5, 0.3, 0.2, in_service=False)
+    pp.create_xward(net, g.C(b), 1., 0.5, 0.3, 0.2, 0.1, 0.3, 1.05, in_service=False)
+    pp.create_ext_grid(net, g.C(b), vm_pu=1.08, va_degree=20., in_service=False)
     return {"added": True}
 
 
